@@ -34,6 +34,16 @@ def gen_calls(rnd, n):
                 calls.append({'id': 'g%d.%s.%d' % (i, fmt, rop), 'api': 'run', 'script': '\n'.join(lines), 'env': env,
                               'folder': fmt, 'rop': rop, 'form': rnd.choice(['df', 'csv']) if _csv_safe(env) else 'df',
                               'kw': {'time_period_output_format': ['vtl', 'sdmx_reporting', 'natural', 'vtl'][i % 4]}})
+    # datasets with SEVERAL Time_Period components whose nulls do not coincide (the file writer reformats them per column)
+    from harness import gen
+    for j in range(max(4, n // 10)):
+        ids = [('Id_1', 'Integer')]
+        ds = gen.dataset(rnd, ids, [('Me_1', 'M', 'Time_Period'), ('Me_2', 'M', 'Time_Period'), ('Me_3', 'M', 'Integer')], rnd.choice([4, 6, 9]), keyspace=4, null_p=0.35)
+        env = {'DS_T': gen.shuffled(rnd, ds)}
+        script = rnd.choice(['P1 <- DS_T;', 'P1 <- DS_T[filter Me_3 > 0 or isnull(Me_3)];', 'P1 <- DS_T[rename Me_1 to Me_9];'])
+        for fmt in ('csv', 'parquet'):
+            calls.append({'id': 'tp%d.%s' % (j, fmt), 'api': 'run', 'script': script, 'env': env, 'folder': fmt, 'rop': True, 'form': 'df',
+                          'kw': {'time_period_output_format': ['vtl', 'sdmx_reporting', 'natural', 'sdmx_gregorian'][j % 3]}})
     return calls
 
 
